@@ -114,10 +114,26 @@ def annotate_body(item: Item, text, masked, bo, en):
     # body with loop annotations and hints
     loops = find_loops(masked, bo, en)
     inserts = []  # (offset, text, region, clause)
-    for ordinal, spec in item.loops.items():
+    named = {}   # loop name -> index into `loops` (loops addressed by the text of their header instead of their ordinal)
+    for key, spec in item.loops.items():
+        if isinstance(key, str):
+            hits = [i for i, (kp, kw_, lb) in enumerate(loops) if re.search(spec['head'], text[kp:lb])]
+            if len(hits) > 1:
+                raise ScanError('%s: loop header %r matched %d loops' % (item.id, spec['head'], len(hits)))
+            if hits:
+                named[key] = hits[0]
+    for key, spec in item.loops.items():
+        if isinstance(key, str):
+            if key not in named:
+                # the loop is gone: its invariant is not needed; what the function must still establish will fail if it mattered
+                continue
+            ordinal = named[key] + 1
+        else:
+            ordinal = key
         if ordinal < 1 or ordinal > len(loops):
             raise ScanError('%s: loop #%d not found (%d loops)' % (item.id, ordinal, len(loops)))
         kwpos, kw, lbo = loops[ordinal - 1]
+        lname = ('loop%d' % ordinal) if not isinstance(key, str) else 'loop[%s]' % key
         parts = []
         if spec.get('iter_name'):
             # Verus names the ghost iterator of a `for` loop with `for x in NAME: expr`; nothing else is changed
@@ -128,21 +144,27 @@ def annotate_body(item: Item, text, masked, bo, en):
         if spec.get('invariant'):
             parts.append(('\n    invariant\n', 'kw', ''))
             for name, e in spec['invariant']:
-                parts.append(('        %s,\n' % e.strip().rstrip(','), 'invariant', 'loop%d.%s' % (ordinal, name)))
+                parts.append(('        %s,\n' % e.strip().rstrip(','), 'invariant', '%s.%s' % (lname, name)))
         if spec.get('ensures'):
             parts.append(('    ensures\n', 'kw', ''))
             for name, e in spec['ensures']:
-                parts.append(('        %s,\n' % e.strip().rstrip(','), 'invariant', 'loop%d.%s' % (ordinal, name)))
+                parts.append(('        %s,\n' % e.strip().rstrip(','), 'invariant', '%s.%s' % (lname, name)))
         if spec.get('decreases'):
-            parts.append(('    decreases %s,\n' % spec['decreases'], 'decreases', 'loop%d.decreases' % ordinal))
+            parts.append(('    decreases %s,\n' % spec['decreases'], 'decreases', '%s.decreases' % lname))
         inserts.append((lbo, parts))
     for h in item.hints:
         anchor, htext, where = h[0], h[1], h[2]
         optional = len(h) > 3 and h[3] == 'optional'
-        mloop = re.match(r'loop(\d+):(body_start|body_end|after)$', anchor)
+        mloop = re.match(r'loop(\d+|\[\w+\]):(body_start|body_end|after)$', anchor)
         if mloop:
             # positions defined by a loop's braces rather than by statement text (robust to edits inside the loop)
-            ordinal = int(mloop.group(1))
+            if mloop.group(1).startswith('['):
+                nm = mloop.group(1)[1:-1]
+                if nm not in named:
+                    continue          # hint of a loop that no longer exists
+                ordinal = named[nm] + 1
+            else:
+                ordinal = int(mloop.group(1))
             if ordinal < 1 or ordinal > len(loops):
                 raise ScanError('%s: loop #%d not found (%d loops)' % (item.id, ordinal, len(loops)))
             lbo = loops[ordinal - 1][2]
